@@ -110,7 +110,12 @@ class LocalLink:
         # Send the data to the first controller with a matching address
         if transport == core.PhysicalTransport.LE:
             destination_controller = self.find_le_controller(destination_address)
-            source_address = sender_controller.random_address
+            # The peer knows this connection by the address the sender uses on it,
+            # which is its public address when that is its own address type.
+            if connection := sender_controller.le_connections.get(destination_address):
+                source_address = connection.self_address
+            else:
+                source_address = sender_controller.random_address
         elif transport == core.PhysicalTransport.BR_EDR:
             destination_controller = self.find_classic_controller(destination_address)
             source_address = sender_controller.public_address
